@@ -115,5 +115,14 @@ PROPS["C06"] = {
             "positionally bound parameter).",
     "undecided": ["to_call_info / changers composition theorem", "call-site discovery", "introduce_parameter"],
 }
+PROPS["C04"] = {
+    "sidecars": ["c04_inline.py", "c06_mapping.py"],
+    "level": "proof",
+    "claim": "Proof level for call-site independence and binding: _DefinitionGenerator._calculate_header leaves the per-definition parameter map unchanged (frame "
+             "obligation over the heap model: a call site cannot disturb the next), and ArgumentMapping binds each call's arguments as Python does (C06 proof).  "
+             "Body substitution, return replacement, name-conflict renaming and import fix-up are bounded stand-ins (pairs of call shapes against the interpreter; projects).",
+    "note": "call parser and body generation are not under contract; dict.items() modelled as some enumeration of entries.",
+    "undecided": ["name capture", "imports added in other modules for all shapes", "behaviour for all inputs"],
+}
 _NB = "check not built yet (framework under construction; see DESIGN.md section 8)"
 NOT_APPLICABLE = {"C%02d" % i: _NB for i in range(1, 21)}
